@@ -17,7 +17,8 @@ ID = "C03"
 LEVEL = "exploration"
 RULE = (
     "all ordered pairs (A, B) over the alphabet {P both orientations, PC composites, Empty, Whole} "
-    "(+ numeric variants, + one slice of the 5776 lattice-triangle pairs), `B in A` compared with the exact "
+    "(+ numeric variants, + warm objects with a past, + touching configurations incl. chords between two vertices of a non-convex shape, "
+    "+ one slice of the 5776 lattice-triangle pairs), `B in A` compared with the exact "
     "subset relation decided on all faces of the joint line arrangement; every boundary curve of the alphabet "
     "(+ touching quadrilaterals) against every shape with boundary=True/False compared with the exact "
     "piecewise classification; consequences A in A, B in A => A|B == A and A&B == B (region_sig). "
